@@ -14,6 +14,10 @@
 #include "QXmppJingleData.h"
 #include "QXmppMixInvitation.h"
 #include "QXmppMucIq.h"
+#include "QXmppVCardIq.h"
+#include "QXmppDiscoveryIq.h"
+#include "QXmppRosterIq.h"
+#include "QXmppMamIq.h"
 #include "QXmppOutOfBandUrl.h"
 #include "QXmppPubSubAffiliation.h"
 #include "QXmppPubSubBaseItem.h"
@@ -187,10 +191,26 @@ static std::string canonOfTree(const Tree &t)
     return o + "))";
 }
 // canonical tree of real toXml output, nothing lost ("none" when it is not in the writer's output language)
+// classes that keep a QSet (hash order on output): runs of sibling elements with this tag are sorted by their text (UTF-8 byte
+// order = code point order, the order of the model) before comparing -- "up to sibling order"
+static QString g_sortTag;
+static QString plainText(const Tree &t) { if (t.isText) return t.name; QString o; for (auto &k : t.kids) o += plainText(k); return o; }
+static void sortRuns(Tree &t, const QString &tag)
+{
+    if (t.isText) return;
+    for (auto &k : t.kids) sortRuns(k, tag);
+    for (size_t i = 0; i < t.kids.size();) {
+        size_t j = i;
+        while (j < t.kids.size() && !t.kids[j].isText && t.kids[j].name == tag) j++;
+        if (j > i + 1) std::stable_sort(t.kids.begin() + i, t.kids.begin() + j, [](const Tree &a, const Tree &b) { return plainText(a).toUtf8() < plainText(b).toUtf8(); });
+        i = j > i ? j : i + 1;
+    }
+}
 static std::string canonWriter(const QByteArray &xml)
 {
     QString s = QString::fromUtf8(xml); int i = 0; Tree t;
     if (!readWriterElement(s, i, t) || i != s.size()) return "none";
+    if (!g_sortTag.isEmpty()) sortRuns(t, g_sortTag);
     return canonOfTree(t);
 }
 
@@ -335,6 +355,7 @@ struct ClassEntry {
     std::string cxx;           // the C++ toXml definition the entry exercises, when several entries share one (variants of one class)
     bool iqPayload = false;
     bool streamChild = false;
+    QString sortTag;           // see g_sortTag
     QString skipRootTag;       // documents whose root element has this name are outside the class's model  // parsed as a child of <stream:stream> (prefix `stream` bound there)
     std::vector<std::string> fieldNames;
     // real parse + serialize + field report; false = rejected by the class's own type check
@@ -645,7 +666,11 @@ static std::vector<ClassEntry> classTable()
             const bool unset = o.type() == E::NoType && o.condition() == E::NoCondition;
             // XEP-0363 children are not described by the schema; without type and condition nothing is written at all
             if (o.fileTooLarge() || o.retryDate().isValid()) g_outsideModel = true;
-            if (unset && (!o.by().isEmpty() || o.code() > 0 || !o.text().isEmpty())) g_outsideModel = true;
+            // without type and condition the object is "no error" for the class (toXml writes nothing): reported as all-unset
+            if (unset) {
+                if (!o.by().isEmpty() || o.code() > 0 || !o.text().isEmpty()) stat("stanza_error_fields_without_type_and_condition");
+                return Vals { vR({ vS(QString()), vO(false), vO(false), vR({ vO(false), vS(QString()) }), vR({ vS(QString()) }) }) };
+            }
             // the URI getter may return what an EARLIER <gone/> said; it is written (and canonical) only for gone / redirect
             if (!uriCond && !o.redirectionUri().isEmpty()) stat("stanza_error_uri_kept_for_other_condition");
             return Vals { vR({ vS(o.by()), int(o.type()) < 0 ? vO(false) : vO(true, quint64(int(o.type()))),
@@ -690,7 +715,11 @@ static std::vector<ClassEntry> classTable()
         ClassEntry e; e.name = "JingleReason"; e.cxx = "QXmppJingleReason"; e.fieldNames = { "reason" };
         auto heldX = [](const R &o) { QByteArray out; QBuffer buf(&out); buf.open(QIODevice::WriteOnly); QXmlStreamWriter w(&buf); w.writeStartElement("x"); o.toXml(&w); w.writeEndElement(); return out; };
         auto tv = [](const R &o) {
-            if (o.type() == R::None && (!o.text().isEmpty() || o.rtpErrorCondition() != R::NoErrorCondition)) g_outsideModel = true;
+            // without a reason type the object is "no reason" for the class (toXml writes nothing): reported as all-unset
+            if (o.type() == R::None) {
+                if (!o.text().isEmpty() || o.rtpErrorCondition() != R::NoErrorCondition) stat("jingle_reason_fields_without_type");
+                return Vals { vR({ vR({ vS(QString()) }), vR({ vO(false), vS(QString()) }), vO(false) }) };
+            }
             return Vals { vR({ vR({ vS(o.text()) }), vR({ o.type() == R::None ? vO(false) : vO(true, quint64(int(o.type()) - 1)), vS(QString()) }),
                                o.rtpErrorCondition() == R::NoErrorCondition ? vO(false) : vO(true, quint64(int(o.rtpErrorCondition()) - 1)) }) };
         };
@@ -713,6 +742,180 @@ static std::vector<ClassEntry> classTable()
             rep = tv(o); return heldX(o);
         };
         t.push_back(e);
+    }
+    t.push_back(payload<QXmppIbbDataIq>("IbbDataIq", { "sid", "seq", "payload" },
+        [vBytes](const QXmppIbbDataIq &o) { return Vals { vS(o.sid()), vN(o.sequence()), vBytes(o.payload()) }; },
+        [](QXmppIbbDataIq &o, const Vals &v) { o.setSid(v.at(0).s); o.setSequence(quint16(v.at(1).n)); o.setPayload(v.at(2).s.toLatin1()); }));
+    {
+        ClassEntry e; e.name = "HashUsed"; e.cxx = "QXmppHashUsed"; e.fieldNames = { "algorithm" };
+        auto tv = [](const QXmppHashUsed &h) { return Vals { int(h.algorithm()) == 0 ? vO(false) : vO(true, quint64(int(h.algorithm()) - 1)) }; };
+        e.run = [tv](const QDomElement &el, QByteArray &out, Vals &vals) { QXmppHashUsed h; if (!h.parse(el)) return false; out = ser(h); vals = tv(h); return true; };
+        e.build = [tv](const Vals &v, Vals &rep) { QXmppHashUsed h; h.setAlgorithm(QXmpp::HashAlgorithm(v.at(0).has ? int(v.at(0).n) + 1 : 0)); rep = tv(h); return ser(h); };
+        t.push_back(e);
+    }
+    {
+        auto optI = [](int i) { return i < 0 ? vO(false) : vO(true, quint64(i)); };
+        auto optS = [](const QString &s) { return s.isNull() ? vA() : vR({ vS(s) }); };
+        auto strOf = [](const Val &w) { if (w.kind != 'R') return QString(); QString s = w.items.at(0).s; return s.isNull() ? QString("") : s; };
+        auto replyVals = [=](const QXmppResultSetReply &r) {
+            return vR({ (r.first().isNull() && r.index() < 0) ? vA() : vR({ optI(r.index()), vS(r.first()) }), optS(r.last()), vR({ optI(r.count()) }) });
+        };
+        auto replyOf = [=](const Val &w) {
+            QXmppResultSetReply r; auto &f = w.items;
+            if (f.at(0).kind == 'R') { const Val &o = f.at(0).items.at(0); r.setIndex(o.has ? int(o.n) : -1); QString s = f.at(0).items.at(1).s; r.setFirst(s.isNull() ? QString("") : s); }
+            r.setLast(strOf(f.at(1))); const Val &c = f.at(2).items.at(0); r.setCount(c.has ? int(c.n) : -1);
+            return r;
+        };
+        t.push_back(payload<QXmppMamResultIq>("MamResultIq", { "complete", "resultSetReply" },
+            [=](const QXmppMamResultIq &o) { return Vals { vB(o.complete()), replyVals(o.resultSetReply()) }; },
+            [=](QXmppMamResultIq &o, const Vals &v) { o.setComplete(v.at(0).b); o.setResultSetReply(replyOf(v.at(1))); }));
+    }
+    {
+        using I = QXmppRosterIq::Item;
+        auto itemVals = [](const I &o) {
+            // QSet: reported as the sorted set (code point order)
+            std::vector<QByteArray> g; for (auto &s : o.groups()) g.push_back(s.toUtf8());
+            std::sort(g.begin(), g.end());
+            Vals gs; for (auto &b : g) gs.push_back(vS(QString::fromUtf8(b.constData(), b.size())));
+            int t = int(o.subscriptionType());
+            // enum SubscriptionType { None = 0, From = 1, To = 2, Both = 3, Remove = 4, NotSet = 8 }; schema order: none both from to remove
+            Val sub = t == 0 ? vO(true, 0) : t == 3 ? vO(true, 1) : t == 1 ? vO(true, 2) : t == 2 ? vO(true, 3) : t == 4 ? vO(true, 4) : vO(false);
+            return Vals { vS(o.bareJid()), vS(o.name()), sub, vS(o.subscriptionStatus()), vB(o.isApproved()), vL(gs),
+                          o.isMixChannel() ? vR({ vS(o.mixParticipantId()) }) : vA() };
+        };
+        auto itemOf = [](const Vals &v) {
+            I o; o.setBareJid(v.at(0).s); o.setName(v.at(1).s);
+            static const I::SubscriptionType T[] = { I::None, I::Both, I::From, I::To, I::Remove };
+            o.setSubscriptionType(v.at(2).has ? T[v.at(2).n] : I::NotSet);
+            o.setSubscriptionStatus(v.at(3).s); o.setIsApproved(v.at(4).b);
+            QSet<QString> g; for (auto &it : v.at(5).items) g.insert(it.s.isNull() ? QString("") : it.s); o.setGroups(g);
+            if (v.at(6).kind == 'R') { o.setIsMixChannel(true); o.setMixParticipantId(v.at(6).items.at(0).s); }
+            return o;
+        };
+        plain("RosterItem", { "bareJid", "name", "subscriptionType", "subscriptionStatus", "approved", "groups", "mixChannel" }, itemVals, itemOf);
+        t.back().cxx = "QXmppRosterIq::Item"; t.back().sortTag = "group";
+        t.push_back(payload<QXmppRosterIq>("RosterIq", { "version", "mixAnnotate", "items" },
+            [=](const QXmppRosterIq &o) { Vals items; for (auto &i : o.items()) items.push_back(vR(itemVals(i))); return Vals { vS(o.version()), o.mixAnnotate() ? vR({}) : vA(), vL(items) }; },
+            [=](QXmppRosterIq &o, const Vals &v) { o.setVersion(v.at(0).s); o.setMixAnnotate(v.at(1).kind == 'R'); for (auto &it : v.at(2).items) o.addItem(itemOf(it.items)); }));
+        t.back().sortTag = "group";
+    }
+    // ---- XEP-0004 data forms (single-valued field types; see Classes.lean)
+    auto formVals = [](const QXmppDataForm &f) {
+        using F = QXmppDataForm::Field;
+        if (f.isNull()) {
+            // a null form is "no form" for the class (toXml writes nothing): reported as all-unset
+            if (!f.fields().isEmpty() || !f.title().isEmpty() || !f.instructions().isEmpty()) stat("data_form_null_with_content");
+            return vR({ vO(false), vR({ vS(QString()) }), vR({ vS(QString()) }), vL({}) });
+        }
+        Vals fields;
+        for (auto &fl : f.fields()) {
+            int ti = -1;
+            switch (fl.type()) {
+            case F::FixedField: ti = 0; break; case F::HiddenField: ti = 1; break; case F::JidSingleField: ti = 2; break;
+            case F::TextPrivateField: ti = 3; break; case F::TextSingleField: ti = 4; break;
+            default: break;
+            }
+            if (ti < 0 || !fl.mediaSources().isEmpty()) { g_outsideModel = true; ti = 4; }
+            fields.push_back(vR({ vN(quint64(ti)), vS(fl.label()), vS(fl.key()), vR({ vS(fl.value().toString()) }), vR({ vS(fl.description()) }),
+                                  fl.isRequired() ? vR({}) : vA() }));
+        }
+        return vR({ vO(true, quint64(int(f.type()) - 1)), vR({ vS(f.title()) }), vR({ vS(f.instructions()) }), vL(fields) });
+    };
+    auto formOf = [](const Val &w) {
+        using F = QXmppDataForm::Field;
+        static const F::Type T[] = { F::FixedField, F::HiddenField, F::JidSingleField, F::TextPrivateField, F::TextSingleField };
+        QXmppDataForm f; auto &v = w.items;
+        f.setType(v.at(0).has ? QXmppDataForm::Type(int(v.at(0).n) + 1) : QXmppDataForm::None);
+        f.setTitle(v.at(1).items.at(0).s); f.setInstructions(v.at(2).items.at(0).s);
+        QList<F> fl;
+        for (auto &it : v.at(3).items) {
+            auto &x = it.items; F fd(T[x.at(0).n]);
+            fd.setLabel(x.at(1).s); fd.setKey(x.at(2).s); fd.setValue(x.at(3).items.at(0).s); fd.setDescription(x.at(4).items.at(0).s); fd.setRequired(x.at(5).kind == 'R');
+            fl << fd;
+        }
+        f.setFields(fl);
+        return f;
+    };
+    {
+        ClassEntry e; e.name = "DataForm"; e.cxx = "QXmppDataForm"; e.fieldNames = { "form" };
+        auto held = [](const QXmppDataForm &o) { QByteArray out; QBuffer buf(&out); buf.open(QIODevice::WriteOnly); QXmlStreamWriter w(&buf); w.writeStartElement("holder"); o.toXml(&w); w.writeEndElement(); return out; };
+        e.run = [=](const QDomElement &el, QByteArray &out, Vals &vals) {
+            QXmppDataForm f; f.parse(firstChildElement(el, u"x", u"jabber:x:data"));
+            out = held(f); vals = Vals { formVals(f) }; return true;
+        };
+        e.build = [=](const Vals &v, Vals &rep) { auto f = formOf(v.at(0)); rep = Vals { formVals(f) }; return held(f); };
+        t.push_back(e);
+    }
+    t.push_back(payload<QXmppMucOwnerIq>("MucOwnerIq", { "form" },
+        [=](const QXmppMucOwnerIq &o) { return Vals { formVals(o.form()) }; },
+        [=](QXmppMucOwnerIq &o, const Vals &v) { o.setForm(formOf(v.at(0))); }));
+    {
+        // XEP-0030: one entry per query type; a <query/> of the other type, or with several data forms (parsed into ONE form object
+        // whose field list grows), is outside the respective schema
+        auto countForms = [](const QDomElement &iq) {
+            int n = 0; auto q = firstChildElement(iq, u"query");
+            for (auto c = q.firstChildElement(); !c.isNull(); c = c.nextSiblingElement()) if (c.tagName() == u"x" && c.namespaceURI() == u"jabber:x:data") n++;
+            return n;
+        };
+        {
+            ClassEntry e; e.name = "DiscoInfoIq"; e.cxx = "QXmppDiscoveryIq"; e.iqPayload = true; e.fieldNames = { "node", "identities", "features", "form" };
+            auto tv = [=](const QXmppDiscoveryIq &o) {
+                if (o.queryType() != QXmppDiscoveryIq::InfoQuery) g_outsideModel = true;
+                Vals ids; for (auto &i : o.identities()) ids.push_back(vR({ vS(i.language()), vS(i.category()), vS(i.name()), vS(i.type()) }));
+                Vals fs; for (auto &f : o.features()) fs.push_back(vR({ vS(f) }));
+                return Vals { vS(o.queryNode()), vL(ids), vL(fs), formVals(o.form()) };
+            };
+            e.run = [=](const QDomElement &iq, QByteArray &out, Vals &vals) {
+                Open<QXmppDiscoveryIq> o; o.parseElementFromChild(iq); out = serPayload(o); vals = tv(o);
+                if (countForms(iq) > 1) g_outsideModel = true;
+                return true;
+            };
+            e.build = [=](const Vals &v, Vals &rep) {
+                Open<QXmppDiscoveryIq> o; o.setQueryType(QXmppDiscoveryIq::InfoQuery); o.setQueryNode(v.at(0).s);
+                QList<QXmppDiscoveryIq::Identity> ids;
+                for (auto &it : v.at(1).items) { QXmppDiscoveryIq::Identity i; i.setLanguage(it.items.at(0).s); i.setCategory(it.items.at(1).s); i.setName(it.items.at(2).s); i.setType(it.items.at(3).s); ids << i; }
+                o.setIdentities(ids);
+                QStringList fs; for (auto &it : v.at(2).items) fs << it.items.at(0).s; o.setFeatures(fs);
+                o.setForm(formOf(v.at(3)));
+                rep = tv(o); return serPayload(o);
+            };
+            t.push_back(e);
+        }
+        {
+            ClassEntry e; e.name = "DiscoItemsIq"; e.cxx = "QXmppDiscoveryIq"; e.iqPayload = true; e.fieldNames = { "node", "items", "form" };
+            auto tv = [=](const QXmppDiscoveryIq &o) {
+                if (o.queryType() != QXmppDiscoveryIq::ItemsQuery) g_outsideModel = true;
+                Vals its; for (auto &i : o.items()) its.push_back(vR({ vS(i.jid()), vS(i.name()), vS(i.node()) }));
+                return Vals { vS(o.queryNode()), vL(its), formVals(o.form()) };
+            };
+            e.run = [=](const QDomElement &iq, QByteArray &out, Vals &vals) {
+                Open<QXmppDiscoveryIq> o; o.parseElementFromChild(iq); out = serPayload(o); vals = tv(o);
+                if (countForms(iq) > 1) g_outsideModel = true;
+                return true;
+            };
+            e.build = [=](const Vals &v, Vals &rep) {
+                Open<QXmppDiscoveryIq> o; o.setQueryType(QXmppDiscoveryIq::ItemsQuery); o.setQueryNode(v.at(0).s);
+                QList<QXmppDiscoveryIq::Item> its;
+                for (auto &it : v.at(1).items) { QXmppDiscoveryIq::Item i; i.setJid(it.items.at(0).s); i.setName(it.items.at(1).s); i.setNode(it.items.at(2).s); its << i; }
+                o.setItems(its); o.setForm(formOf(v.at(2)));
+                rep = tv(o); return serPayload(o);
+            };
+            t.push_back(e);
+        }
+    }
+    {
+        auto fl = [](int bits, int n) { Vals v; for (int i = 0; i < n; i++) v.push_back((bits >> i) & 1 ? vR({}) : vA()); return v; };
+        auto bitsOf = [](const Vals &v, int n) { int b = 0; for (int i = 0; i < n; i++) if (v.at(i).kind == 'R') b |= 1 << i; return b; };
+        plain("VCardAddress", { "home", "work", "postal", "preferred", "country", "locality", "postcode", "region", "street" },
+            [=](const QXmppVCardAddress &o) { Vals v = fl(int(o.type()), 4); for (auto &s : { o.country(), o.locality(), o.postcode(), o.region(), o.street() }) v.push_back(vR({ vS(s) })); return v; },
+            [=](const Vals &v) { QXmppVCardAddress o; o.setType(QXmppVCardAddress::Type(bitsOf(v, 4))); o.setCountry(v.at(4).items.at(0).s); o.setLocality(v.at(5).items.at(0).s);
+                                 o.setPostcode(v.at(6).items.at(0).s); o.setRegion(v.at(7).items.at(0).s); o.setStreet(v.at(8).items.at(0).s); return o; });
+        plain("VCardEmail", { "home", "work", "internet", "preferred", "x400", "address" },
+            [=](const QXmppVCardEmail &o) { Vals v = fl(int(o.type()), 5); v.push_back(vR({ vS(o.address()) })); return v; },
+            [=](const Vals &v) { QXmppVCardEmail o; o.setType(QXmppVCardEmail::Type(bitsOf(v, 5))); o.setAddress(v.at(5).items.at(0).s); return o; });
+        plain("VCardPhone", { "home", "work", "voice", "fax", "pager", "msg", "cell", "video", "bbs", "modem", "isdn", "pcs", "preferred", "number" },
+            [=](const QXmppVCardPhone &o) { Vals v = fl(int(o.type()), 13); v.push_back(vR({ vS(o.number()) })); return v; },
+            [=](const Vals &v) { QXmppVCardPhone o; o.setType(QXmppVCardPhone::Type(bitsOf(v, 13))); o.setNumber(v.at(13).items.at(0).s); return o; });
     }
     return t;
 }
@@ -881,6 +1084,7 @@ struct DocResult { bool accepted = false; std::string cin, cout; Vals vals; QByt
 
 static bool processDoc(const ClassEntry &c, const QByteArray &xml, const std::string &what, DocResult &r)
 {
+    g_sortTag = c.sortTag;
     r.cin = canonPlain(xml);
     if (r.cin == "none") { stat("documents_not_wellformed"); return false; }
     if (!c.skipRootTag.isEmpty()) {
@@ -984,6 +1188,7 @@ int main(int argc, char **argv)
         const ClassEntry &c = table[k];
         stat("schemas_modelled");
         g_classTags = classTags[k];
+        g_sortTag = c.sortTag;
         corr("codec-reset " + c.name, "ok");
         for (unsigned i : indices[k]) {
             const std::string valText = gen[g++], treeText = gen[g++];
